@@ -151,4 +151,55 @@ theorem lazy_prefix_filter (L : Option Nat) (p : P) (n : Nat) (g : G)
 theorem outs_length (L : Option Nat) (n : Nat) (it : It) : (outs L n it).length ≤ n :=
   outs_length_le L n it
 
+
+/-- `with_count`: every element with the number of times it has been seen so far -/
+theorem iter_den_withCount (L : Option Nat) (eq : V → V → Bool) (n : Nat) (g : G) :
+    outs L n ((G.withCount g eq).start L) = wcItems eq [] (outs L n (g.start L)) := by
+  rw [G.start]; exact outs_withCount L eq n _ []
+
+/-- `windows`: the sliding windows of the elements pulled so far (one window per element once full) -/
+theorem iter_den_windows (L : Option Nat) (size : Nat) (n : Nat) (g : G)
+    (hc : (Permits.ofLimit L).covers (outs L n (g.start L)).length) :
+    outs L n ((G.windows g size).start L) = winItems size [] (outs L n (g.start L)) := by
+  rw [G.start]; exact outs_windows L size n _ [] _ hc
+
+/-- `group` over a finite generator: the groups closed while it runs, then the last group -/
+theorem iter_den_group (L : Option Nat) (eq : P2) (g : G) (xs : List Item) (h : Den L (g.start L) xs)
+    (hc : (Permits.ofLimit L).covers (xs.length + 1)) :
+    Den L ((G.group g eq).start L) ((grpRun eq [] xs).1 ++ flushGroup (grpRun eq [] xs).2) := by
+  obtain ⟨n, h1, h2⟩ := h
+  rw [G.start]; exact den_group L eq n _ [] _ xs h1 h2 hc
+
+/-- `repeat`: every pass over the generator value sees the same elements (re-iterability inside the
+machine): the repetition of a non-empty finite generator is that list again and again … -/
+theorem repeat_den (L : Option Nat) (g : G) (xs : List Item) (h : Den L (g.start L) xs) (hne : xs ≠ []) (m : Nat) :
+    ∃ k, outs L k ((G.repeat_ g).start L) = (List.replicate m xs).flatten := by
+  rw [G.start]
+  obtain ⟨k, hk, _⟩ := repeat_cycles L g xs h hne m
+  exact ⟨k, hk⟩
+
+/-- … and the repetition of an empty generator is empty (repaired in 44f5035) -/
+theorem repeat_empty_den (L : Option Nat) (g : G) (h : Den L (g.start L) []) :
+    Den L ((G.repeat_ g).start L) [] := by
+  rw [G.start]; exact repeat_empty L g h
+
+/-- `zip(a, b)`: a round takes exactly one element from each part — a value or an error value — and yields
+the pair, or the error; either way both parts have advanced by one: the parts stay aligned (182c226) -/
+theorem zip_round_aligned (L : Option Nat) (a a1 a' b b1 b' : It) (ja jb : Nat) (x y : Item)
+    (ha : skipsTo L ja a a1) (hxa : step L a1 = .yield x a') (hx : x ≠ .viol)
+    (hb : skipsTo L jb b b1) (hyb : step L b1 = .yield y b') (hy : y ≠ .viol) :
+    outs L (ja + (1 + (jb + 1))) (.zip [a, b] [] [] false) = [pairItem x y] ∧
+    after L (ja + (1 + (jb + 1))) (.zip [a, b] [] [] false) = some (.zip [a', b'] [] [] false) :=
+  zip_round L a a1 a' b b1 b' ja jb x y ha hxa hx hb hyb hy
+
+/-- … and the zip ends with its first part, without touching the second -/
+theorem zip_ends_with_first (L : Option Nat) (a a1 b : It) (ja : Nat)
+    (ha : skipsTo L ja a a1) (hda : step L a1 = .done) :
+    outs L (ja + 1) (.zip [a, b] [] [] false) = [] ∧ after L (ja + 1) (.zip [a, b] [] [] false) = none :=
+  zip_ends_first L a a1 b ja ha hda
+
+/-- the witness of the alignment defect: an error in the first part no longer shifts the second -/
+example : outs none 6 ((G.zip [.map (.fromArr [.int 0, .int 1]) (fun | .val (.int 0) => .err | x => x),
+    .fromCount none]).start none) = [.err, .val (.tup [.int 1, .int 1])] := by rfl
+
 end XrayModel.C16
